@@ -7,6 +7,8 @@ higher-numbered groups, a pipeline only deeper children).
 """
 from __future__ import annotations
 
+import json
+
 D = lambda **kw: {'d': [[k, v] for k, v in kw.items()]}  # noqa: E731
 
 
@@ -15,6 +17,37 @@ def P(tag, **kw):
     d.update(kw)
     return {'d': [[k, v] for k, v in d.items()]}
 
+
+# equivalent ways of writing one pipeline document (harness/flow_impl.render_pipe)
+LAYOUTS = [
+    None,
+    {'style': 'wrap'},                                            # {steps: [{name: ..}, ..], ..} on line 1
+    {'style': 'wrap', 'quote': True},                             # compact JSON on line 1
+    {'style': 'flow'},                                            # steps: [{..}, {..}]   first group on line 1
+    {'style': 'flow', 'perline': 'rest', 'pad': 8},               # first step on the key's line, rest below
+    {'style': 'flow', 'perline': True, 'pad': 2, 'quote': True},
+    {'style': 'wrap', 'perline': True, 'quote': True, 'pad': 1},  # JSON, one step per line
+    {'style': 'wrap', 'perline': 'rest', 'lead': 1},
+    {'style': 'block', 'indent': 0},
+    {'style': 'block', 'indent': 4, 'lead': 2, 'docstart': True},
+    {'style': 'block', 'dashsplit': True},
+    {'style': 'flow', 'docstart': True},
+    {'style': 'block', 'lead': 3},
+]
+
+
+# foreach items: falsy values are items like any other
+FOREACH_LISTS = [[1, 2], ['a'], [], [[1], [2, 3]], '{lst}', {'py': {'n': 'lst'}}, [None, 0], '{empty}', ['x', 'y', 'z'],
+                 {'d': [['ka', 1], ['kb', 2]]}, ['a', None], [None], [0, ''], [False, 'b'], [[], {'d': []}], [None, 'z'],
+                 '{falsy}', ['', False, 0]]
+
+# group bodies that are no sequence of steps / sequence items that are no steps (yaml slips)
+BAD_BODIES = [{'scalar': 42}, {'scalar': 0}, {'scalar': {'f': [3, 1]}}, {'scalar': True}, {'scalar': False},
+              {'scalar': 'zq'}, {'scalar': ''}, {'scalar': {'d': [['nomodule_k', 1]]}}, {'scalar': {'d': []}},
+              {'scalar': {'d': [[1, 2]]}}, {'scalar': {'py': {'c': 1}}}, {'scalar': {'sic': 'x'}}, None, []]
+BAD_ITEMS = [{'item': 1}, {'item': None}, {'item': [1, 2]}, {'item': {'f': [1, 1]}}, {'item': True}, '',
+             {'in': [['a', 1]]}, {'name': 5}, {'name': [1]}, {'name': 0, 'in': [['a', 1]]}, {'name': True, 'swallow': True},
+             {'name': 7, 'retry': {'bad': [1]}}]
 
 ERR_NAMES = ['ValueError', 'TypeError', 'RuntimeError', 'vprobe.ProbeError', 'vprobe.OtherError']
 TRUTHY = [True, 'true', 'True', 'TRUE', '1', '1.0', 1, 2, [0], 'tRuE']
@@ -113,8 +146,7 @@ class Gen:
         if self.chance(0.3):
             st['swallow'] = self.boolish(want=self.chance(0.7))
         if self.chance(0.25):
-            st['foreach'] = self.pick([[1, 2], ['a'], [], [[1], [2, 3]], '{lst}', pyname('lst'), [None, 0],
-                                       '{empty}', ['x', 'y', 'z'], D(ka=1, kb=2)])
+            st['foreach'] = json.loads(json.dumps(self.pick(FOREACH_LISTS)))
         if self.chance(0.22):
             w = {}
             if self.chance(0.85):
@@ -148,6 +180,11 @@ class Gen:
             st['retry'] = rt
         if self.chance(0.2):
             st['onError'] = self.pick(['plain', D(code=1, note='{k1}'), '{k2}', [1, '{k1}'], 0])
+        # a description: formatted once, up front (its own errors propagate; those of the run/skip preview do not)
+        if self.chance(0.15):
+            st['description'] = self.pick(['plain text', 'step for {k1}', '{k2}', '', 0, ['a', '{k1}'], pyname('k1'),
+                                           'uses {i}', 'round {whileCounter}', '{arg1}',
+                                           '{nokey}' if self.chance(0.3) else 'fine', D(note='{k1}')])
 
     def step(self, pipe, group, targets, children, depth):
         kind = self.wpick(list(self.w.items()))
@@ -261,9 +298,21 @@ class Gen:
                 n = self.r.randint(0, 2)
                 steps = [self.step(name, h, [], [], depth) for _ in range(n)] if n or self.chance(0.7) else None
                 groups.append([h, steps])
+        # yaml slips: what stands under a group name is no sequence, or a sequence item is no step
+        if self.chance(0.12):
+            gi = self.r.randrange(len(groups))
+            if self.chance(0.5) or not isinstance(groups[gi][1], list):
+                groups[gi][1] = json.loads(json.dumps(self.pick(BAD_BODIES)))
+            else:
+                groups[gi][1].insert(self.r.randint(0, len(groups[gi][1])), json.loads(json.dumps(self.pick(BAD_ITEMS))))
         p = {'name': name, 'groups': groups}
         if self.chance(0.3):
             p['parser'] = self.pick(['vparser', 'pypyr.parser.keyvaluepairs'])
+        # the same document written another way (flow style, JSON, other indentation, ...)
+        if self.chance(0.35):
+            lay = self.pick(LAYOUTS)
+            if lay is not None:
+                p['layout'] = dict(lay)
         return p
 
     def program(self):
@@ -275,7 +324,8 @@ class Gen:
             pipes.append(self.pipe(n, names[i + 1:], i))
         run = {'name': 'main'}
         ctx = {'k1': 'v1', 'k2': 'two {k1}', 't1': True, 't2': 'TRUE', 'f1': False, 'f2': 'no', 'n1': 1,
-               'two': 2, 'lst': ['l1', 'l2'], 'empty': [], 'flag': False, 'gname': 'g1', 'raw': 'r'}
+               'two': 2, 'lst': ['l1', 'l2'], 'empty': [], 'flag': False, 'gname': 'g1', 'raw': 'r',
+               'falsy': [0, None, '']}
         if self.chance(0.85):
             run['dict_in'] = D(**ctx)
         if self.chance(0.25):
